@@ -31,6 +31,7 @@ from ._helper import (
     _create_name_annotation,
     _get_shortest_public_reexport,
     _replace_if_safeds_keyword,
+    _replace_if_safeds_keyword_in_path,
 )
 
 if TYPE_CHECKING:
@@ -90,7 +91,9 @@ class StubsStringGenerator:
                 module_name_info = ""
                 if package_info != package_info_camel_case:
                     module_name_info = f'@PythonModule("{package_info}")\n'
-                module_header = f"{module_name_info}package {package_info_camel_case}\n"
+                module_header = (
+                    f"{module_name_info}package {_replace_if_safeds_keyword_in_path(package_info_camel_case)}\n"
+                )
 
                 # Create body text
                 if isinstance(element, Class):
@@ -130,7 +133,7 @@ class StubsStringGenerator:
         module_name_info = ""
         if package_info != package_info_camel_case:
             module_name_info = f'@PythonModule("{package_info}")\n'
-        module_header = f"{module_name_info}package {package_info_camel_case}\n"
+        module_header = f"{module_name_info}package {_replace_if_safeds_keyword_in_path(package_info_camel_case)}\n"
 
         # Create docstring
         docstring = self._create_sds_docstring_description(module.docstring, "")
@@ -175,7 +178,7 @@ class StubsStringGenerator:
 
             from_ = ".".join(import_parts[0:-1])
             from_ = _convert_name_to_convention(from_, self.naming_convention)
-            from_ = _replace_if_safeds_keyword(from_)
+            from_ = _replace_if_safeds_keyword_in_path(from_)
 
             name = import_parts[-1]
             name = _convert_name_to_convention(name, self.naming_convention)
@@ -241,8 +244,9 @@ class StubsStringGenerator:
 
             if constructor_type_vars:
                 for constructor_type_var in constructor_type_vars:
-                    if constructor_type_var.name not in self.class_generics:
-                        self.class_generics.append(constructor_type_var.name)
+                    constructor_type_var_name = _replace_if_safeds_keyword(constructor_type_var.name)
+                    if constructor_type_var_name not in self.class_generics:
+                        self.class_generics.append(constructor_type_var_name)
 
             if self.class_generics:
                 variance_info = f"<{', '.join(self.class_generics)}>"
@@ -289,7 +293,7 @@ class StubsStringGenerator:
 
                 if not is_internal_superclass:
                     self._add_to_imports(superclass)
-                    superclass_names.append(superclass_name)
+                    superclass_names.append(_replace_if_safeds_keyword(superclass_name))
                 else:
                     # For internal superclasses, we have to add their public members to subclasses.
                     superclass_methods_text += self._create_internal_class_string(
@@ -656,7 +660,7 @@ class StubsStringGenerator:
         docstring = self._create_sds_docstring(enum_data.docstring, "")
 
         # Signature
-        enum_signature = f"{docstring}enum {enum_data.name}"
+        enum_signature = f"{docstring}enum {_replace_if_safeds_keyword(enum_data.name)}"
 
         # Enum body
         enum_text = ""
@@ -708,7 +712,7 @@ class StubsStringGenerator:
                     if name[0] == "_" and type_data["qname"] not in self.module_imports:
                         self._current_todo_msgs.add("internal class as type")
 
-                    return name
+                    return _replace_if_safeds_keyword(name)
         elif kind == "FinalType":
             return self._create_type_string(type_data["type"])
         elif kind == "CallableType":
@@ -746,7 +750,7 @@ class StubsStringGenerator:
             if name == "Set":
                 self._current_todo_msgs.add("no set support")
             elif name == "NamedSequence":
-                name = type_data["name"]
+                name = _replace_if_safeds_keyword(type_data["name"])
 
             if types:
                 if len(types) >= 2 and name in {"Set", "List"}:
